@@ -39,6 +39,8 @@ import (
 //vp:all stub (*github.com/patrickmn/go-cache.Cache).Get = vpCacheGet
 //vp:all stub (*github.com/patrickmn/go-cache.Cache).Set = vpCacheSet
 //vp:all stub (*github.com/patrickmn/go-cache.Cache).ItemCount = vpCacheCount
+//vp:all stub (*github.com/patrickmn/go-cache.Cache).OnEvicted = vpCacheOnEvicted
+//vp:all model (*github.com/patrickmn/go-cache.cache).OnEvicted = vpCacheOnEvicted
 //vp:all model (*github.com/patrickmn/go-cache.cache).Get = vpCacheGet
 //vp:all model (*github.com/patrickmn/go-cache.cache).Set = vpCacheSet
 //vp:all model (*github.com/patrickmn/go-cache.cache).ItemCount = vpCacheCount
@@ -204,6 +206,26 @@ func vpCacheSet(c interface{}, k string, v interface{}, d time.Duration) {
 	vpCache[k] = v
 	vpCacheSetLog = append(vpCacheSetLog, v)
 }
+// go-cache calls the function registered with OnEvicted for every entry that expires (janitor) or is
+// deleted. It is registered once (package initialisation) and survives the harness resets.
+var vpEvicted func(string, interface{})
+
+func vpCacheOnEvicted(c interface{}, f func(string, interface{})) { vpEvicted = f }
+
+// vpCacheExpireAll: enough time passes for every remembered entry to expire and be swept.
+func vpCacheExpireAll() {
+	vpMu.Lock()
+	old := vpCache
+	vpCache = map[string]interface{}{}
+	f := vpEvicted
+	vpMu.Unlock()
+	for k, v := range old {
+		if f != nil {
+			f(k, v)
+		}
+	}
+}
+
 func vpCacheCount(c interface{}) int {
 	vpMu.Lock()
 	defer vpMu.Unlock()
